@@ -419,6 +419,17 @@ class Check:
         if self.driver is None:
             return
         self._src_validate()
+        if not getattr(self, "_history_done", False):
+            # process-history stream (every property): a sample of this run's own lines, each after its twin
+            self._history_done = True
+            try:
+                import gen
+                hl = gen.history_lines(self.rng, self.lines, 400 if self.tier == "quick" else 4000)
+            except Exception:  # noqa: BLE001
+                hl = []
+            if hl:
+                for l, im in zip(hl, impl_many(hl)):
+                    self.add(l, im, nontrivial=False, tag="after-history")
         n = len(self.lines)
         for lo in range(0, n, batch):
             ls = self.lines[lo:lo + batch]
@@ -517,6 +528,8 @@ class Check:
         replay = None
         os.makedirs(os.path.join(VERIF, "replays"), exist_ok=True)
         if unknown_prop:
+            # a failing line that carries its own history replays in a fresh process: report such a line first
+            unknown_prop.sort(key=lambda f: not f.line.startswith("after "))
             f = unknown_prop[0]
             if shrink:
                 try:
